@@ -406,7 +406,7 @@ def run(ck: Check) -> None:
     guard.campaign(ck, tpl_search.self_test)
     probe, PROBE = PROBE, None
     guard.campaign(ck, render_probe.evaluate, probe, None, _case_json)
-    known_findings(ck)
+    guard.campaign(ck, known_findings)
 
 
 def _case_json(case):
